@@ -17,6 +17,9 @@ package main
 //	txCreatorCallsInGo    true if txCreator calls txToOutputs inside a `go` statement or a function literal (which would
 //	                      let two selections overlap)
 //	channelBuffered       true if createTxRequests is made with a buffer size other than 0 (informational)
+//	holdUnlockErrorIsFatal  true if, in txCreator, every `… , err := <x>.holdUnlock()` is directly followed by a plain
+//	                      `if err != nil { …; continue }` (no other condition, no switch on the error kind): a locked
+//	                      wallet never reaches txToOutputs (model: CoinSelect.txCreator; round 2, seed C06-5)
 
 import (
 	"fmt"
@@ -38,6 +41,62 @@ func ctsSelName(e ast.Expr) string {
 	return ""
 }
 
+// ctsHoldUnlockGuard inspects the statement lists of fn: (number of holdUnlock assignments, number of them directly
+// followed by `if err != nil { …; continue }`).
+func ctsHoldUnlockGuard(fn *ast.FuncDecl) (calls, guarded int) {
+	isHold := func(st ast.Stmt) bool {
+		as, ok := st.(*ast.AssignStmt)
+		if !ok || len(as.Rhs) != 1 || len(as.Lhs) != 2 {
+			return false
+		}
+		c, ok := as.Rhs[0].(*ast.CallExpr)
+		if !ok || ctsSelName(c.Fun) != "holdUnlock" {
+			return false
+		}
+		id, ok := as.Lhs[1].(*ast.Ident)
+		return ok && id.Name == "err"
+	}
+	isFatalIf := func(st ast.Stmt) bool {
+		is, ok := st.(*ast.IfStmt)
+		if !ok || is.Init != nil || is.Else != nil || len(is.Body.List) == 0 {
+			return false
+		}
+		be, ok := is.Cond.(*ast.BinaryExpr)
+		if !ok || be.Op != token.NEQ {
+			return false
+		}
+		x, ok1 := be.X.(*ast.Ident)
+		y, ok2 := be.Y.(*ast.Ident)
+		if !ok1 || !ok2 || x.Name != "err" || y.Name != "nil" {
+			return false
+		}
+		br, ok := is.Body.List[len(is.Body.List)-1].(*ast.BranchStmt)
+		return ok && br.Tok == token.CONTINUE && br.Label == nil
+	}
+	visit := func(list []ast.Stmt) {
+		for i, st := range list {
+			if isHold(st) {
+				calls++
+				if i+1 < len(list) && isFatalIf(list[i+1]) {
+					guarded++
+				}
+			}
+		}
+	}
+	ast.Inspect(fn.Body, func(x ast.Node) bool {
+		switch v := x.(type) {
+		case *ast.BlockStmt:
+			visit(v.List)
+		case *ast.CaseClause:
+			visit(v.Body)
+		case *ast.CommClause:
+			visit(v.Body)
+		}
+		return true
+	})
+	return
+}
+
 func extractCreateTxSites(repo, out string) error {
 	dir := filepath.Join(repo, "wallet")
 	fset := token.NewFileSet()
@@ -54,6 +113,7 @@ func extractCreateTxSites(repo, out string) error {
 	inGo := false
 	buffered := false
 	sawMake := false
+	holdCalls, holdGuarded := 0, 0
 	var files []string
 	for n := range pkg.Files {
 		files = append(files, n)
@@ -66,6 +126,11 @@ func extractCreateTxSites(repo, out string) error {
 				continue
 			}
 			name := fd.Name.Name
+			if name == "txCreator" {
+				c, g := ctsHoldUnlockGuard(fd)
+				holdCalls += c
+				holdGuarded += g
+			}
 			// depth of enclosing go statements / function literals while walking
 			var walk func(n ast.Node, nested bool)
 			walk = func(n ast.Node, nested bool) {
@@ -144,7 +209,8 @@ func extractCreateTxSites(repo, out string) error {
 		"def txCreatorSpawners : List String := " + list("spawn") + "\n" +
 		fmt.Sprintf("def txCreatorSpawns : Nat := %d\n", spawns) +
 		"def txCreatorCallsInGo : Bool := " + b(inGo) + "\n" +
-		"def channelBuffered : Bool := " + b(buffered) + "\n\n" +
+		"def channelBuffered : Bool := " + b(buffered) + "\n" +
+		"def holdUnlockErrorIsFatal : Bool := " + b(holdCalls > 0 && holdCalls == holdGuarded) + "\n\n" +
 		"end CreateTxSitesGen\n"
 	if err := os.MkdirAll(filepath.Dir(out), 0o755); err != nil {
 		return err
